@@ -77,3 +77,47 @@ def vu64_encode(value: int) -> bytes:
     low = 8 - ln
     prefix = (0xFF << (9 - ln)) & 0xFF
     return bytes([prefix | (value & ((1 << low) - 1))]) + (value >> low).to_bytes(8, 'little')[:ln - 1]
+
+
+def _inv_shr(y, s):
+    x = y
+    t = y >> s
+    while t:
+        x ^= t
+        t >>= s
+    return x
+
+def _inv_shl(y, s):
+    x = y
+    t = (y << s) & M64
+    while t:
+        x ^= t
+        t = (t << s) & M64
+    return x
+
+def xs_inv(a):
+    a = _inv_shr(a, 27)
+    a = _inv_shl(a, 25)
+    a = _inv_shr(a, 12)
+    return a
+
+def key_for_hash(ln, h, rng):
+    """bytes of a key of length ln >= 8 whose placement hash is exactly h"""
+    assert ln >= 8
+    h0 = xs(int.from_bytes(ln.to_bytes(8, 'little'), 'big'))
+    nchunks = (ln + 7) // 8
+    last_len = ln - 8 * (nchunks - 1)
+    if nchunks == 1:
+        c = (xs_inv(h) - h0) & M64
+        return c.to_bytes(8, 'big')
+    # middle chunks random, last chunk random, first chunk solved
+    mids = [rng.getrandbits(64) for _ in range(nchunks - 2)]
+    last = rng.getrandbits(8 * last_len)
+    # walk backwards: state before last chunk
+    st = (xs_inv(h) - last) & M64
+    for m in reversed(mids):
+        st = (xs_inv(st) - m) & M64
+    c1 = (xs_inv(st) - h0) & M64
+    out = c1.to_bytes(8, 'big') + b"".join(m.to_bytes(8, 'big') for m in mids) + last.to_bytes(last_len, 'big')
+    assert len(out) == ln and khash(out) == h
+    return out
